@@ -341,6 +341,30 @@ theorem true_sound_concurrent (g : Graph) (na nb : Node) (sched : List Bool) (k 
   obtain ⟨p, hp, hb, hk⟩ := get?_mem h
   exact hk ▸ hs.c p hp hb
 
+/-- on a graph without cycle every answer is `False`: no `RecMethod` is ever introduced for non-recursive types -/
+theorem acyclic_all_false (g : Graph) (hg : ∀ n, ¬ OnCycle g n) (fuel : Nat) (starts : List Node) (k : Node) (b : Bool)
+    (h : (history step g fuel starts).get? k = some b) : b = false := by
+  cases b with
+  | false => rfl
+  | true => exact absurd (true_sound g fuel starts k h) (hg k)
+
+/-- the executable reference used by the driver and the harness (`onCycleB`) only answers `true` on a cycle -/
+theorem reachFrom_sound (g : Graph) : ∀ (k : Nat) (front : List Node) (x : Node), x ∈ reachFrom g k front → ∃ f ∈ front, Reach g f x
+  | 0, front, x, hx => ⟨x, hx, .refl _⟩
+  | k + 1, front, x, hx => by
+    unfold reachFrom at hx
+    rcases List.mem_append.1 hx with h1 | h2
+    · exact ⟨x, h1, .refl _⟩
+    · obtain ⟨f', hf', hr⟩ := reachFrom_sound g k _ x h2
+      obtain ⟨f, hf, hc⟩ := List.mem_flatMap.1 hf'
+      exact ⟨f, hf, .step hc hr⟩
+
+theorem onCycleB_sound (g : Graph) (n : Node) (h : onCycleB g n = true) : OnCycle g n := by
+  unfold onCycleB at h
+  have hm : n ∈ reachFrom g g.length (children g n) := by simpa using h
+  obtain ⟨f, hf, hr⟩ := reachFrom_sound g _ _ n hm
+  exact ⟨f, hf, hr⟩
+
 /-- the premises are met by a non-trivial run: the example graph answers `True` for `Q` -/
 example : (history step g1 200 [0]).get? 4 = some true := g1_repaired_exact.2
 
